@@ -87,6 +87,19 @@ def exec_case(case):
                         a[i] = v
                 data.faces += _rows(raw["F"], kind)
                 data.cells += _rows(raw["C"], kind)
+                if g.get("fail_first", 0):
+                    # history: a first construction from this very data object RAISES (a malformed edge row); the caller repairs the data and builds again
+                    data.edges.append((3, 1, 2))
+                    try:
+                        M.mesh.mesh._instanciate_raw_mesh_data(data)
+                    except Exception:
+                        pass
+                    data.edges.clear()
+                    data.edges += _rows(raw["E"], kind)
+                    if raw["att"]:
+                        a = data.edges.create_attribute("tag", int) if not data.edges.has_attribute("tag") else data.edges.get_attribute("tag")
+                        for i, v in raw["att"]:
+                            a[i] = v
                 m = M.mesh.mesh._instanciate_raw_mesh_data(data)
             e["obs"] = observe(m)
         except Exception as ex:
@@ -186,6 +199,8 @@ def run(ctx):
         for kind in dict.fromkeys(kinds):
             if _applicable(raw, kind):
                 cases.append({"id": "raw-%d-%s" % (i, kind), "given": {"raw": raw, "container": kind}, "events": []})
+                if kind != "from_arrays" and i % 5 == 2:
+                    cases.append({"id": "raw-%d-%s-after-a-failed-build" % (i, kind), "given": {"raw": raw, "container": kind, "fail_first": 1}, "events": []})
     obs = ctx.execute("c02", "exec_case", cases, chunksize=32)
     ctx.judge("C02_Trace", "C02_Trace.cfg", [{k: c[k] for k in ("id", "given", "events")} for c in obs], "raw-inputs-x-containers",
               "c02", "exec_case", batch_events=1200)
